@@ -19,6 +19,27 @@ to `PyErr.spsdk` when the raised class name starts with `SPSDK`, else `.other`.
 The output is a plain nested `if … then … else …` term of type
 `PyRes Int` / `PyRes Bool` (no `do` notation) so that `simp`/`omega`/`grind`
 can work on it directly.
+
+Extensions (phase 2, all additive: a function inside the subset above translates to the same text):
+
+  * `while cond: body` over integer/boolean locals -> an auxiliary structurally recursive function
+    `<name>_while<k> (consts…) : Nat → state… → PyRes (state tuple)` with an explicit FUEL argument;
+    fuel exhausted = `.error .other` ("did not terminate within fuel").  The translated function (and every
+    translated caller) gets a leading `(fuel : Nat)` parameter.  `break`/`continue`/`raise` inside the body are
+    supported, `return` inside a loop and `while … else` are not.
+  * `for x in range(<constants>)` / `for x in (<int constants>)` -> unrolled (at most 64 iterations, no break/continue).
+  * `ceil(a / b)` / `floor(a / b)` (also `math.…`, usually inside `int(…)`) on integers: Python computes the quotient as
+    an IEEE double.  For |a|, |b| < 2^53 both operands are exact, the quotient is correctly rounded and the result is
+    the exact ceiling/floor (a quotient can only round *onto* an integer from the harmless side below 2^53).  The
+    translation therefore carries the guard explicitly: outside `|a|,|b| < 2^53` the generated function is
+    `.error .other` (= "no claim"), so a theorem quantifying over all integers cannot be proved about it.
+  * parameters annotated `Optional[int]` (`int | None`) -> `Option Int`; truthiness `(x.getD 0 != 0)`; `x is None`,
+    `x is not None`; `a or b` on int/Optional[int] operands with Python's value semantics; use of an Optional in
+    arithmetic/comparison is allowed where a dominating test (`if x`, `x and …`, `x is not None`) narrows it,
+    elsewhere a `None` operand is a TypeError (`.error .other` guard).
+  * parameters of type 'Len' (bytes-like): only `len(p)` may be used; the Lean parameter is `p_len : Int`.
+  * `assert isinstance(…)` and logging calls are skipped; other `assert c` -> AssertionError when `c` is false.
+  * f-strings / exception messages are never translated (only the exception class matters).
 """
 from __future__ import annotations
 
@@ -36,6 +57,7 @@ class FunSig:
     lean_name: str
     params: list  # list of (name, 'Int'|'Bool')
     ret: str  # 'Int' | 'Bool'
+    fuel: bool = False  # True: the Lean function takes a leading `(fuel : Nat)` argument (contains a while loop)
 
 
 @dataclass
